@@ -57,6 +57,7 @@ class P(flow.Plan):
         traces, inputs = [], []
         for i in range(n):
             rng = random.Random(sd * 65537 + i)
+            rng2 = random.Random(sd * 8191 + i)                   # a stream of its own: the scenarios of earlier runs stay as they were
             kinds = [rng.choice(["path", "binary", "text", "custom", "ufile_b", "ufile_t", "console_b", "console_t", "console_e"])
                      for _ in range(rng.randint(2, 5))]
             if i % 4 == 1:
@@ -74,6 +75,9 @@ class P(flow.Plan):
                     t = rng.choice(writers_rec.TEXTS)
                     if rng.random() < 0.2:
                         t = "G1 X%d ; %s" % (rng.randint(0, 99), "".join(chr(rng.choice([233, 241, 8364, 20013, 65])) for _ in range(rng.randint(1, 6))))
+                    if rng2.random() < 0.05:
+                        # a name obtained from the OS (os.fsdecode) with a lone surrogate: no UTF-8 form (added after seed C14k)
+                        t = rng2.choice(["G1 X1 ; caf\udce9.svg", "\ud800", "file \udcff\udcfe M30"])
                     descs.append({"act": "write", "text": t, "comment": rng.random() < 0.2})
                 elif x < 0.92:
                     descs.append({"act": "flush"})
